@@ -250,9 +250,7 @@ def index(run, fx):
                 why = 'an iteration of the traversal can skip the numbering or the step of the counter'
             elif not steps:
                 why = 'the numbering loop does not advance with s = s->next()'
-            elif not inc_in_arg and inc is not a and reaches_avoiding(ac, inc, e, [y for y in ac.blocks[h]['el']] or []) and \
-                    not (ac.block_of[inc['i']] == b and ac.pos_of[inc['i']] > ac.pos_of[e['i']]) and \
-                    (ac.block_of[inc['i']] == b and ac.pos_of[inc['i']] < ac.pos_of[e['i']] or _before_in_iteration(ac, h, inc, e)):
+            elif not inc_in_arg and _before_in_iteration(ac, h, inc, e):
                 why = 'the counter is stepped before its value is handed to Slot::index (numbering would start at 1)'
             else:
                 ok = True
